@@ -3,11 +3,13 @@
 // the same geometry, compare number density, temperature and neutral fractions cell by cell.
 // op line:  snap <nx> <ny> <nz> <ax> <ay> <az> <sx> <sy> <sz> <seed>     (box in metres, bit patterns)
 // answer:   ok <ncell> maxrel=<..>   (+ ORACLE line when a cell differs by more than 1e-12 relative)
-// op line:  snapb <n> <gx> <gy> <gz> <ax> <ay> <az> <side> <buffer> <seed>
-//           task-based snapshot: cubic box, n^3 cells in gx x gy x gz subgrids, written through the
-//           writer's DensitySubGridCreator overload, read back on the same geometry through BOTH
-//           CMacIonizeSnapshotDensityFunction and BufferedCMacIonizeSnapshotDensityFunction (buffer
-//           of <buffer> subgrids, cells visited in global order so that subgrids are evicted)
+// op line:  snapb <nx> <ny> <nz> <gx> <gy> <gz> <ax> <ay> <az> <sx> <sy> <sz> <buffer> <seed>
+//           task-based snapshot: nx x ny x nz cells in gx x gy x gz subgrids, written through the
+//           writer's DensitySubGridCreator overload (density, temperature, one dataset per ion, all
+//           position dependent), read back on the same geometry through
+//           CMacIonizeSnapshotDensityFunction and - for cubic boxes with cubic cells, the only ones
+//           it supports - BufferedCMacIonizeSnapshotDensityFunction (buffer of <buffer> subgrids,
+//           cells visited in global order so that subgrids are evicted)
 #include "common.hpp"
 #include <unistd.h>
 
@@ -48,6 +50,10 @@ struct Field {
   double dens(long c) const { return std::pow(10., -3. + 12. * unit01(seed * 7919 + 3 * c)); }
   double temp(long c) const { return 10. + 3.e4 * unit01(seed * 7919 + 3 * c + 1); }
   double xH(long c) const { return unit01(seed * 7919 + 3 * c + 2); }
+  // neutral/ionic fraction of every ion the writer stores (ion 0 = H as before)
+  double xion(long c, int ion) const {
+    return ion == 0 ? xH(c) : unit01(mix(seed * 7919 + 3 * c + 2) + 1000003ull * ion);
+  }
 };
 
 class FieldFunction : public DensityFunction {
@@ -58,10 +64,8 @@ public:
     DensityValues v;
     v.set_number_density(f.dens(c));
     v.set_temperature(f.temp(c));
-    v.set_ionic_fraction(ION_H_n, f.xH(c));
-#ifdef HAS_HELIUM
-    v.set_ionic_fraction(ION_He_n, 1. - f.xH(c));
-#endif
+    for (int ion = 0; ion < NUMBER_OF_IONNAMES; ++ion)
+      v.set_ionic_fraction(ion, f.xion(c, ion));
     return v;
   }
 };
@@ -88,20 +92,25 @@ static void compare(_reader_ &reader, const Field &f, const char *rname, double 
                                    f.anchor[1] + (iy + 0.5) * f.sides[1] / f.n[1],
                                    f.anchor[2] + (iz + 0.5) * f.sides[2] / f.n[2]);
         const DensityValues v = reader(PointCell(p));
-        const double got[3] = {v.get_number_density(), v.get_temperature(),
-                               v.get_ionic_fraction(ION_H_n)};
-        const double want[3] = {f.dens(c), f.temp(c), f.xH(c)};
-        static const char *names[3] = {"number density", "temperature", "neutral fraction H"};
-        for (int k = 0; k < 3; ++k) {
-          const double rel =
-              std::fabs(got[k] - want[k]) / std::max(std::fabs(got[k]), std::fabs(want[k]));
+        for (int k = 0; k < 2 + NUMBER_OF_IONNAMES; ++k) {
+          const double got = k == 0   ? v.get_number_density()
+                             : k == 1 ? v.get_temperature()
+                                      : v.get_ionic_fraction(k - 2);
+          const double want = k == 0 ? f.dens(c) : k == 1 ? f.temp(c) : f.xion(c, k - 2);
+          const double rel = (got == want) ? 0.
+                                           : std::fabs(got - want) /
+                                                 std::max(std::fabs(got), std::fabs(want));
           if (rel > maxrel)
             maxrel = rel;
           if (!(rel <= 1.e-12) && what.empty()) {
             std::ostringstream o;
             o.precision(17);
-            o << rname << ": " << names[k] << " of cell (" << ix << "," << iy << "," << iz
-              << "): written " << want[k] << " read " << got[k];
+            o << rname << ": "
+              << (k == 0   ? std::string("number density")
+                  : k == 1 ? std::string("temperature")
+                           : "fraction of ion " + get_ion_name(k - 2))
+              << " of cell (" << ix << "," << iy << "," << iz << "): written " << want << " read "
+              << got;
             what = o.str();
           }
         }
@@ -109,23 +118,26 @@ static void compare(_reader_ &reader, const Field &f, const char *rname, double 
 }
 
 static void op_snapb(const std::vector< std::string > &w, const std::string &dir, long lineno) {
+  // snapb nx ny nz gx gy gz ax ay az sx sy sz buffer seed
   Field f;
-  const long n = std::atol(w[1].c_str());
-  const long g[3] = {std::atol(w[2].c_str()), std::atol(w[3].c_str()), std::atol(w[4].c_str())};
-  const double side = dbl(w[8]);
+  long g[3];
   for (int k = 0; k < 3; ++k) {
-    f.n[k] = n;
-    f.anchor[k] = dbl(w[5 + k]);
-    f.sides[k] = side;
+    f.n[k] = std::atol(w[1 + k].c_str());
+    g[k] = std::atol(w[4 + k].c_str());
+    f.anchor[k] = dbl(w[7 + k]);
+    f.sides[k] = dbl(w[10 + k]);
   }
-  const long buffer = std::atol(w[9].c_str());
-  f.seed = u64(w[10]);
+  const long buffer = std::atol(w[13].c_str());
+  f.seed = u64(w[14]);
+  // the buffered reader only supports cubic boxes with cubic cells
+  const bool cubic = f.n[0] == f.n[1] && f.n[1] == f.n[2] && f.sides[0] == f.sides[1] &&
+                     f.sides[1] == f.sides[2];
   std::ostringstream pt;
   pt.precision(17);
   pt << "SimulationBox:\n  anchor: [" << f.anchor[0] << " m, " << f.anchor[1] << " m, " << f.anchor[2]
-     << " m]\n  sides: [" << side << " m, " << side << " m, " << side << " m]\n"
+     << " m]\n  sides: [" << f.sides[0] << " m, " << f.sides[1] << " m, " << f.sides[2] << " m]\n"
      << "  periodicity: [false, false, false]\n"
-     << "DensityGrid:\n  number of cells: [" << n << ", " << n << ", " << n << "]\n"
+     << "DensityGrid:\n  number of cells: [" << f.n[0] << ", " << f.n[1] << ", " << f.n[2] << "]\n"
      << "DensitySubGridCreator:\n  number of subgrids: [" << g[0] << ", " << g[1] << ", " << g[2]
      << "]\n  periodicity: [false, false, false]\n";
   ParameterFile params;
@@ -152,11 +164,8 @@ static void op_snapb(const std::vector< std::string > &w, const std::string &dir
   fields[DENSITYGRIDFIELD_COORDINATES] = true;
   fields[DENSITYGRIDFIELD_NUMBER_DENSITY] = true;
   fields[DENSITYGRIDFIELD_TEMPERATURE] = true;
-#ifdef HAS_HELIUM
-  fields[DENSITYGRIDFIELD_NEUTRAL_FRACTION] = 3;
-#else
-  fields[DENSITYGRIDFIELD_NEUTRAL_FRACTION] = 1;
-#endif
+  // one dataset per ion: all of them
+  fields[DENSITYGRIDFIELD_NEUTRAL_FRACTION] = (uint_fast32_t(1) << NUMBER_OF_IONNAMES) - 1;
   const std::string prefix = "snapb" + std::to_string(lineno) + "_";
   {
     GadgetDensityGridWriter writer(prefix, dir, false, DensityGridWriterFields(fields), nullptr);
@@ -171,15 +180,16 @@ static void op_snapb(const std::vector< std::string > &w, const std::string &dir
     compare(reader, f, "CMacIonizeSnapshotDensityFunction", maxrel, what_plain);
     reader.free();
   }
-  {
+  if (cubic) {
     BufferedCMacIonizeSnapshotDensityFunction reader(
-        file, buffer, box, CoordinateVector< uint_fast32_t >(n, n, n), nullptr);
+        file, buffer, box, CoordinateVector< uint_fast32_t >(f.n[0], f.n[1], f.n[2]), nullptr);
     reader.initialize();
     compare(reader, f, "BufferedCMacIonizeSnapshotDensityFunction", maxrel, what_buffered);
     reader.free();
   }
   unlink(file.c_str());
-  std::printf("ok %ld maxrel=%.3g\n", n * n * n, maxrel);
+  std::printf("ok %ld maxrel=%.3g %s\n", f.n[0] * f.n[1] * f.n[2], maxrel,
+              cubic ? "both-readers" : "plain-reader");
   if (!what_plain.empty())
     std::printf("ORACLE line=%ld snapshot-roundtrip-differs (%s)\n", lineno, what_plain.c_str());
   if (!what_buffered.empty())
@@ -196,7 +206,7 @@ int main() {
   while (std::getline(std::cin, line)) {
     ++lineno;
     const std::vector< std::string > w = words(line);
-    if (w.size() == 11 && w[0] == "snapb") {
+    if (w.size() == 15 && w[0] == "snapb") {
       op_snapb(w, dir, lineno);
       continue;
     }
@@ -247,11 +257,7 @@ int main() {
     fields[DENSITYGRIDFIELD_COORDINATES] = true;
     fields[DENSITYGRIDFIELD_NUMBER_DENSITY] = true;
     fields[DENSITYGRIDFIELD_TEMPERATURE] = true;
-#ifdef HAS_HELIUM
-    fields[DENSITYGRIDFIELD_NEUTRAL_FRACTION] = 3;
-#else
-    fields[DENSITYGRIDFIELD_NEUTRAL_FRACTION] = 1;
-#endif
+    fields[DENSITYGRIDFIELD_NEUTRAL_FRACTION] = (uint_fast32_t(1) << NUMBER_OF_IONNAMES) - 1;
     const std::string prefix = "snap" + std::to_string(lineno) + "_";
     {
       GadgetDensityGridWriter writer(prefix, dir, false, DensityGridWriterFields(fields), nullptr);
@@ -261,40 +267,13 @@ int main() {
     CMacIonizeSnapshotDensityFunction reader(file, false, false, 1.e-6, nullptr);
     reader.initialize();
     double maxrel = 0.;
-    long bad = -1;
     std::string what;
     const long ntot = f.n[0] * f.n[1] * f.n[2];
-    for (long ix = 0; ix < f.n[0]; ++ix)
-      for (long iy = 0; iy < f.n[1]; ++iy)
-        for (long iz = 0; iz < f.n[2]; ++iz) {
-          const long c = (ix * f.n[1] + iy) * f.n[2] + iz;
-          const CoordinateVector<> p(f.anchor[0] + (ix + 0.5) * f.sides[0] / f.n[0],
-                                     f.anchor[1] + (iy + 0.5) * f.sides[1] / f.n[1],
-                                     f.anchor[2] + (iz + 0.5) * f.sides[2] / f.n[2]);
-          const DensityValues v = reader(PointCell(p));
-          const double got[3] = {v.get_number_density(), v.get_temperature(),
-                                 v.get_ionic_fraction(ION_H_n)};
-          const double want[3] = {f.dens(c), f.temp(c), f.xH(c)};
-          static const char *names[3] = {"number density", "temperature", "neutral fraction H"};
-          for (int k = 0; k < 3; ++k) {
-            const double rel =
-                std::fabs(got[k] - want[k]) / std::max(std::fabs(got[k]), std::fabs(want[k]));
-            if (rel > maxrel)
-              maxrel = rel;
-            if (!(rel <= 1.e-12) && bad < 0) {
-              bad = c;
-              std::ostringstream o;
-              o.precision(17);
-              o << names[k] << " of cell (" << ix << "," << iy << "," << iz << "): written " << want[k]
-                << " read " << got[k];
-              what = o.str();
-            }
-          }
-        }
+    compare(reader, f, "CMacIonizeSnapshotDensityFunction", maxrel, what);
     reader.free();
     unlink(file.c_str());
     std::printf("ok %ld maxrel=%.3g\n", ntot, maxrel);
-    if (bad >= 0)
+    if (!what.empty())
       std::printf("ORACLE line=%ld snapshot-roundtrip-differs (%s)\n", lineno, what.c_str());
     std::fflush(stdout);
   }
